@@ -17,7 +17,7 @@ theorem facts02_body : facts02.missingBodyFault = true := by decide
 /-- every document-level behaviour switch of the dict-document code measured on /repo has its good value -/
 theorem facts02_good : facts02.Good :=
   ⟨by decide, by decide, by decide, by decide, by decide, by decide, by decide, by decide, by decide, by decide,
-   by decide, by decide, by decide⟩
+   by decide, by decide, by decide, by decide, by decide⟩
 
 /-- Whatever document a client sends — any nesting of lists, mappings, strings, bytes, numbers, nulls, in any
     place — with soft validation `_from_dict_value` either faults or yields a value of the declared type; nothing is
@@ -79,7 +79,7 @@ def exSub : ClassDef := ⟨"Sub".toList, "tns".toList, some "Base".toList,
 def exOther : ClassDef := ⟨"Other".toList, "tns".toList, none, [("x".toList, .prim .boolean {})]⟩
 def exReg : Registry := [exBase, exSub, exOther]
 def exBaseTy : Ty := .obj "Base".toList "tns".toList none exBase.fields {}
-def exCfg : Cfg := ⟨.json, .soft, false, .dict, false⟩
+def exCfg : Cfg := ⟨.json, .soft, false, .dict, false, false, true⟩
 
 example : (decode facts08 facts02 exCfg exReg exBaseTy
     (.map [(.str "Sub".toList, .map [(.str "a".toList, .int 5), (.str "b".toList, .bool true)])])).okClass
@@ -89,9 +89,9 @@ example : (decode facts08 facts02 exCfg exReg exBaseTy
 example : wfTy exBaseTy = true := by decide
 
 /-- `{"name": 5}` for a File under soft validation is a fault; `{"name": "a.txt"}` builds a `File.Value` -/
-example : (decodeFileObj facts08 facts02 ⟨.json, .soft, true, .dict, false⟩ [] {}
+example : (decodeFileObj facts08 facts02 ⟨.json, .soft, true, .dict, false, false, true⟩ [] {}
     (.map [(.str "name".toList, .int 5)])).isFault = true := by decide +kernel
-example : (decodeFileObj facts08 facts02 ⟨.json, .soft, true, .dict, false⟩ [] {}
+example : (decodeFileObj facts08 facts02 ⟨.json, .soft, true, .dict, false, false, true⟩ [] {}
     (.map [(.str "name".toList, .str "a.txt".toList)])).okClass = some fileValueName := by decide +kernel
 
 end SpyneModel.Props.C04hier
